@@ -83,7 +83,7 @@ theorem include_splice (cv : Conv) (tbl : Table) (recog : Bytes → Bool)
   have h3 : (nameINCLUDE == nameEND) = false := by decide
   have h4 : (nameINCLUDE == nameENDINC) = false := by decide
   have h5 : (nameINCLUDE == namePATHS) = false := by decide
-  simp only [parseLoop, hne, Bool.false_eq_true, ↓reduceIte, hnm, hdn, hns, h1, h2, h3, h4, h5, hvalid, Bool.not_true,
+  simp only [parseLoop, parseStep, keywordRes, dispatch, hne, Bool.false_eq_true, ↓reduceIte, hnm, hdn, hns, h1, h2, h3, h4, h5, hvalid, Bool.not_true,
     hfind, newRaw_include, show includeKw.finished = false from rfl,
     feedLines_include recog path hq hsafe rest, hfin, beq_self_eq_true, hrecs, hrs, hfile]
 
